@@ -2584,7 +2584,11 @@ pub fn assign(env: &REnv, lhs: &EvaluatedLvalue, rt: Option<&ObjType>, rhs: Obj)
                     || Ok(unwrap_or_clone(ls)),
                     "Can't unpack into mismatched length",
                 ),
-                Obj::Seq(seq) => match seq.len() {
+                Obj::Seq(seq) => match match &seq {
+                    // a string is unpacked into its characters, so count those (len() is bytes)
+                    Seq::String(s) => Some(s.chars().count()),
+                    _ => seq.len(),
+                } {
                     Some(len) => assign_all(
                         env,
                         ss,
